@@ -39,10 +39,11 @@ type asig struct {
 }
 
 type step struct {
-	Op   string `json:"op"`
-	N    int    `json:"n"`
-	Cert []asig `json:"cert"`
-	Res  string `json:"res"`
+	Op     string `json:"op"`
+	N      int    `json:"n"`
+	Cert   []asig `json:"cert"`
+	Res    string `json:"res"`
+	Defect string `json:"defect"`
 }
 
 // wire format of a commit vote list (consensus.CommitVoteList without BTP proofs)
@@ -286,6 +287,10 @@ func TestReplay(t *testing.T) {
 		node.ProposeFinalizeBlock(consensus.NewEmptyCommitVoteList())
 	}
 	blk := node.LastBlock
+	genesis, gerr := node.BM.GetBlockByHeight(0)
+	if gerr != nil {
+		t.Fatal(gerr)
+	}
 	psid, err := partSetIDOf(blk)
 	if err != nil || len(lt.errs) > 0 {
 		t.Fatalf("fixture: %v %v", err, lt.errs)
@@ -302,7 +307,7 @@ func TestReplay(t *testing.T) {
 			return err
 		}
 		s := steps[0]
-		if s.Op != "verifylist" {
+		if s.Op != "verifylist" && s.Op != "decodelist" {
 			return fmt.Errorf("unexpected op %q", s.Op)
 		}
 		ss := sets[s.N]
@@ -316,17 +321,67 @@ func TestReplay(t *testing.T) {
 		h := fnv.New64a()
 		h.Write([]byte(sigOf(s)))
 		crnd := rand.New(rand.NewSource(tlaio.Seed() ^ int64(h.Sum64()>>1)))
+		id := fmt.Sprintf("c%d", idx)
+		if s.Op == "decodelist" {
+			// bytes that are not an encoding of a vote list must not yield a vote set
+			good, _, err := buildList(crnd, tg, ss.wallets, []asig{{Who: map[bool]int{true: 1, false: 0}[s.N >= 1], What: "ok"}})
+			if err != nil {
+				return err
+			}
+			switch s.Defect {
+			case "trunc":
+				good = good[:1+crnd.Intn(len(good)-1)]
+			case "scalar":
+				good = codec.BC.MustMarshalToBytes(good)
+			case "baditem": // an item whose signature field has an impossible length
+				good = codec.BC.MustMarshalToBytes(&struct {
+					Round int32
+					BPSID *consensus.PartSetIDAndAppData
+					Items []struct {
+						Timestamp int64
+						Signature []byte
+					}
+				}{tg.round, tg.psid.WithAppData(0), []struct {
+					Timestamp int64
+					Signature []byte
+				}{{tg.ts0, make([]byte, 7+crnd.Intn(50))}}})
+			}
+			out.Begin(id, "cvl:crash:decode")
+			if cvs := consensus.NewCommitVoteSetFromBytes(good); cvs != nil {
+				out.Violation(id, "cvl:decoded:"+s.Defect, fmt.Sprintf("NewCommitVoteSetFromBytes returns a vote set for malformed bytes (%s)", s.Defect),
+					map[string]interface{}{"behaviour": steps, "bytes": fmt.Sprintf("%x", good)})
+			} else {
+				out.OK(id, true, "decodelist:"+s.Defect+fmt.Sprint(s.N))
+			}
+			return nil
+		}
 		bs, notes, err := buildList(crnd, tg, ss.wallets, s.Cert)
 		if err != nil {
 			return err
 		}
-		id := fmt.Sprintf("c%d", idx)
 		out.Begin(id, "cvl:crash")
 		cvs := consensus.NewCommitVoteSetFromBytes(bs)
 		if cvs == nil {
 			return fmt.Errorf("case %d: the commit vote list does not decode", idx)
 		}
-		verr, panicked := verifyBlock(cvs, blk, ss.validors)
+		// no validator set is designated (n = 0): the genesis block, a nil validator list or an empty one
+		vblk, vals := module.BlockData(blk), ss.validors
+		if s.N == 0 {
+			switch crnd.Intn(3) {
+			case 0:
+				vals = nil
+				notes = append(notes, "nil-validators")
+			case 1:
+				notes = append(notes, "empty-validators")
+			default:
+				vblk = genesis
+				if four, err := newSignerSet(4, nil); err == nil {
+					vals = four.validors
+				}
+				notes = append(notes, "genesis-block")
+			}
+		}
+		verr, panicked := verifyBlock(cvs, vblk, vals)
 		n++
 		det := map[string]interface{}{"behaviour": steps, "bytes": fmt.Sprintf("%x", bs), "variants": notes,
 			"spec": s.Res, "real": fmt.Sprint(verr), "height": tg.height, "round": tg.round}
